@@ -25,7 +25,7 @@ def Secured (s : Snap) : Prop :=
 theorem reconcile_evicts (w : World) (f : Nat) :
     (reconcile w f).2.evicts = [] ∨
     ∃ m1 : M, (reconcile w f).2.evicts = [⟨m1.env, w.job, m1.mem⟩] ∧ m1.faults = f ∧
-      (w.job.spec.direct = false → GatesM m1) ∧ DD m1 w.job.spec.direct ∧
+      (w.job.spec.direct = false → GatesM m1 ∧ (NCs w.job.status → NodeOK m1)) ∧ DD m1 w.job.spec.direct ∧
       (∃ p, m1.env.pod = some p) ∧
       (m1.mem.spec.resvRef = true → ∃ r, m1.env.resv = some r ∧ resvSucceeded r = false) ∧
       ¬ WFp w.job.status.conds ∧
@@ -33,7 +33,7 @@ theorem reconcile_evicts (w : World) (f : Nat) :
   unfold reconcile
   split
   · exact Or.inl rfl
-  · have g := doMigrate_goal (M.init w f) w.job.spec.resvRef ⟨rfl, rfl⟩
+  · have g := doMigrate_goal (NCs w.job.status) (M.init w f) w.job.spec.resvRef ⟨rfl, rfl⟩ (fun h => ⟨h, h⟩)
     rcases g with hk | ⟨m1, hk1, hq, hev⟩
     · exact Or.inl hk.evicts
     · refine Or.inr ⟨m1, ?_, hk1.faults, ?_, hk1.dd _ ⟨rfl, rfl⟩, hev.pod, hev.bound, ?_, ?_⟩
@@ -60,7 +60,7 @@ theorem evict_only_when_secured (w : World) (f : Nat) (hmode : w.job.spec.direct
   · rw [h] at hs
     simp only [List.mem_singleton] at hs
     subst hs
-    obtain ⟨hrr, r, hr, h1, h2, h3, _⟩ := hg hmode
+    obtain ⟨⟨hrr, r, hr, h1, h2, h3, _⟩, _⟩ := hg hmode
     obtain ⟨r', hr', hsucc⟩ := hb hrr.1
     rw [hr] at hr'; cases hr'
     exact ⟨rfl, r, p, hr, hp, h1, h2, h3, hsucc⟩
@@ -92,6 +92,67 @@ theorem evict_only_when_secured_history (ops : List Op) :
     most once -/
 theorem evict_once_per_reconcile (w : World) (f : Nat) : (reconcile w f).2.evicts.length ≤ 1 := by
   rcases reconcile_evicts w f with h | ⟨m1, h, _⟩ <;> simp [h]
+
+/-- **evict_node_checked** (node part of clause 1, every fault mask).  If at the start of the reconcile the job
+    has not yet recorded a target node (Status.NodeName empty and no ReservationScheduled=True condition — every
+    job that has not yet passed `prepareJobWithReservationScheduleSuccess`), then every `Evict` call of that
+    reconcile is issued while the reservation's node, if it has one, differs from the pod's node. -/
+theorem evict_node_checked (w : World) (f : Nat) (hmode : w.job.spec.direct = false) (hnc : NCs w.job.status) :
+    ∀ s ∈ (reconcile w f).2.evicts, ∀ r p, s.env.resv = some r → s.env.pod = some p → r.node ≠ 0 → r.node ≠ p.node := by
+  intro s hs
+  rcases reconcile_evicts w f with h | ⟨m1, h, _, hg, _⟩
+  · rw [h] at hs; cases hs
+  · rw [h] at hs
+    simp only [List.mem_singleton] at hs
+    subst hs
+    exact (hg hmode).2 hnc
+
+/- FULL node clause of the statement: `∀ history, ∀ s ∈ (run w ops).2, reservation-first → r.node ≠ p.node`.
+   It is FALSE for the code as written once the node has been recorded in an earlier reconcile (known finding
+   C17:evict-unsecured:same-node:node-check-stale): the two witnesses below are a faulty history (the Evict call
+   fails, the pod is re-created on the reservation's node, the retry evicts it) and a fault-free one (a job that
+   recorded the node while its reservation was in pending-pod mode; the reservation is re-created in normal mode
+   on the pod's node).  `evict_node_checked` is the part that holds: the check is never skipped in the reconcile
+   that records the node, whatever fails. -/
+def SameNodeFree (w : World) (ops : List Op) : Prop :=
+  ∀ s ∈ (run w ops).2, s.job0.spec.direct = false →
+    ∀ r p, s.env.resv = some r → s.env.pod = some p → r.node ≠ 0 → r.node ≠ p.node
+
+def cexWorld : World :=
+  { job := { spec := ⟨false, false, 0, true, 1, true, false, 0⟩,
+             status := ⟨Ph.running, 0, 0, 0, false, []⟩ },
+    env := ⟨0, some ⟨1, 3, 0, 0, false⟩, some ⟨RPh.available, 1, 1, 0, false, 0, false, true, false⟩, 0, false, 0, 1⟩ }
+
+def sameNodeSnap (s : Snap) : Bool :=
+  match s.env.resv, s.env.pod with
+  | some r, some p => r.node != 0 && r.node == p.node
+  | _, _ => false
+
+theorem not_sameNodeFree_of {w : World} {ops : List Op}
+    (h : ∃ s ∈ (run w ops).2, s.job0.spec.direct = false ∧ sameNodeSnap s = true) : ¬ SameNodeFree w ops := by
+  intro hfree
+  obtain ⟨s, hs, hd, hsn⟩ := h
+  unfold sameNodeSnap at hsn
+  split at hsn
+  · rename_i r p hr hp
+    simp only [Bool.and_eq_true, bne_iff_ne, ne_eq, beq_iff_eq] at hsn
+    exact hfree s hs hd r p hr hp hsn.1 hsn.2
+  · cases hsn
+
+/-- faulty witness.  Writes of the first reconcile: ReservationCreated (bit 0), ReservationScheduled (bit 1), Evict
+    (bit 2, fails); the pod is re-created (new uid) on the reservation's node 1; the retry evicts it. -/
+theorem evict_node_differs_counterexample :
+    ¬ SameNodeFree cexWorld [.recon 4, .pod (some ⟨2, 1, 2, 0, false⟩), .recon 0] :=
+  not_sameNodeFree_of (by decide)
+
+/-- fault-free witness: the job records node 1 while the reservation is in pending-pod mode (no eviction in that
+    mode); the reservation is then re-created in normal mode, still on node 1, where the pod meanwhile runs. -/
+theorem evict_node_differs_faultfree_counterexample :
+    ¬ SameNodeFree { cexWorld with env := { cexWorld.env with
+          resv := some ⟨RPh.available, 1, 1, 0, false, 0, true, true, false⟩ } }
+        [.recon 0, .pod (some ⟨2, 1, 2, 0, false⟩),
+         .resv (some ⟨RPh.available, 1, 1, 0, false, 0, false, true, false⟩), .recon 0] :=
+  not_sameNodeFree_of (by decide)
 
 /-! ### clause 2 — terminal phases are absorbing -/
 
@@ -180,7 +241,7 @@ theorem recorded_blocks_evict (w : World) (f : Nat) (h : WFp w.job.status.conds)
     unfold reconcile
     split
     · exact h
-    · have g := doMigrate_goal (M.init w f) w.job.spec.resvRef ⟨rfl, rfl⟩
+    · have g := doMigrate_goal False (M.init w f) w.job.spec.resvRef ⟨rfl, rfl⟩ (fun hf => hf.elim)
       rcases g with hk | ⟨m1, hk1, _, hev⟩
       · exact (hk.j ⟨h, h⟩).2
       · exact absurd (hk1.j ⟨h, h⟩).1 hev.nocond
